@@ -28,7 +28,8 @@ ASSUMPTIONS = ["a crash is process death immediately before a file-system step; 
                "interleavings are sampled with injected delays between real processes, not enumerated",
                "the network is replaced by an in-memory fake of the GitHub listing in the download scenarios only"]
 MIN_MONITOR_EVALS = {"crash-point": 60, "post-crash-load": 120, "cache-files-byte-identical": 60, "schedule": 10,
-                     "lock-interval-pairs": 50, "lock-timeout": 2, "refresh-skipped": 2}
+                     "lock-interval-pairs": 50, "lock-timeout": 2, "refresh-skipped": 2,
+                     "failed-refresh": 10}
 WATCHDOG_S = {"quick": 1200, "thorough": 7200}
 JOBS = {"quick": 16, "thorough": 16}
 LOAD_Q = ["8.3.0", "score_2.0.0", "testlib_3.0.0"]
@@ -52,6 +53,9 @@ def shards(tier, seed):
     nl = {"quick": 20, "thorough": 500}[tier]
     out += [dict(kind="locks", n=5, stream=i) for i in range(0, nl, 5)]
     out.append(dict(kind="timeout-refresh"))
+    for start in ("empty", "partial"):
+        out.append(dict(kind="failed-refresh", start=start, loads=LOAD_Q if tier == "quick" else env.BUNDLED,
+                        stride=2 if tier == "quick" else 1))
     return out
 
 
@@ -498,8 +502,84 @@ def run_timeout_refresh(shard, rec):
     shutil.rmtree(base, ignore_errors=True)
 
 
+# ------------------------------------------------------------------------------------------ (5) refresh that fails
+def run_failed_refresh(shard, rec):
+    """Fault sequence: the k-th network request of a refresh fails (URLError), for every k. Unlike a kill, a failure
+    unwinds through the lock's exit code. Whatever it leaves behind, a later process must load the bundled versions."""
+    import urllib.error
+    base = os.path.join(env.scratch(), f"c19f-{os.getpid()}")
+    shutil.rmtree(base, ignore_errors=True)
+    cache = os.path.join(base, "cache")
+
+    def reset():
+        shutil.rmtree(cache, ignore_errors=True)
+        os.makedirs(cache)
+        if shard["start"] == "partial":
+            files = bundled_files()
+            for n in ("HED8.2.0.xml", "HED_score_2.0.0.xml"):
+                with open(os.path.join(cache, n), "wb") as f:
+                    f.write(files[n])
+
+    def refresh(fail_at):
+        """runs in a forked child; returns (outcome text, requests made)"""
+        r, w = os.pipe()
+        pid = os.fork()
+        if pid == 0:
+            out = "?"
+            net = FakeNet()
+            try:
+                os.close(r)
+                from hed.schema import hed_cache
+                use_cache(cache)
+                net.install()
+                inner_req, inner_file = hed_cache.make_url_request, hed_cache.url_to_file
+
+                def failing(inner):
+                    def f(*a, **k):
+                        if fail_at is not None and net.requests + 1 == fail_at:
+                            net.requests += 1
+                            raise urllib.error.URLError("injected network failure")
+                        return inner(*a, **k)
+                    return f
+                hed_cache.make_url_request, hed_cache.url_to_file = failing(inner_req), failing(inner_file)
+                try:
+                    out = f"returned:{hed_cache.cache_xml_versions(cache_folder=cache)}"
+                except Exception as ex:  # noqa
+                    out = f"raised:{type(ex).__name__}"
+            finally:
+                try:
+                    os.write(w, json.dumps([out, net.requests]).encode())
+                finally:
+                    os._exit(0)
+        os.close(w)
+        with os.fdopen(r) as f:
+            data = f.read()
+        os.waitpid(pid, 0)
+        return json.loads(data) if data else ["refresher-died", 0]
+    reset()
+    outcome, total = refresh(None)
+    if not outcome.startswith("returned:0") or total == 0:
+        rec.violation("refresh against the fake listing did not complete", dict(kind="failed-refresh", outcome=outcome))
+        return
+    ks = list(range(1, total + 1, shard["stride"]))
+    for k in ks:
+        reset()
+        outcome, made = refresh(k)
+        rec.mon("failed-refresh")
+        rec.count("failed-refresh-outcome", outcome)
+        case = dict(kind="failed-refresh", start=shard["start"], request=k, of=total, refresh_outcome=outcome)
+        got = load_in_fresh_process(cache, shard["loads"])
+        rec.mon("post-crash-load", len(got))
+        if set(got.values()) != {"ok"}:
+            rec.violation("after a refresh that failed on a network error a load of a bundled version fails or differs",
+                          dict(case, outcomes=got), key="local-population-refused-after-refresh")
+        check_cache_files(cache, rec, case)
+    rec.bulk(len(ks), len(ks))
+    shutil.rmtree(base, ignore_errors=True)
+
+
 def run_shard(shard, rec):
-    {"crash": run_crash, "schedule": run_schedules, "locks": run_locks, "timeout-refresh": run_timeout_refresh}[shard["kind"]](shard, rec)
+    {"failed-refresh": run_failed_refresh, "crash": run_crash, "schedule": run_schedules, "locks": run_locks, "timeout-refresh": run_timeout_refresh}[shard["kind"]](shard, rec)
 
 
 def replay(case, rec):
